@@ -24,6 +24,7 @@ fn driver(prop: &str) -> Option<(&'static str, fn(&mut Cx, &mut Rng) -> R)> {
         "C01" => ("C01", props::c01::case),
         "C02" => ("C02", props::c02::case),
         "C03" => ("C03", props::c03::case),
+        "C04" => ("C04", props::c04::case),
         "C05" => ("C05", props::c05::case),
         "C08" => ("C08", props::c08::case),
         "C09" => ("C09", props::c09::case),
